@@ -104,6 +104,12 @@ pub fn edge_line() -> impl Strategy<Value = B> {
             Just(B(b"a: \xc3\xa4 ok utf8".to_vec())),
             Just(B(b"a: \xed\xa0\x80 surrogate".to_vec())),
             // payload of the announced length not followed by LF
+            // valid UTF-8 letters outside ASCII are not part of the key / command alphabet
+            Just(B("Voc\u{ea}: x".as_bytes().to_vec())),
+            Just(B("\u{b5}: 1".as_bytes().to_vec())),
+            Just(B("\u{43a}\u{43b}\u{44e}\u{447}: v".as_bytes().to_vec())),
+            Just(B("ACK [5@0] {m\u{fa}sica} oops".as_bytes().to_vec())),
+            Just(B("\u{e9}t\u{e9}: x".as_bytes().to_vec())),
             Just(B(b"binary: 2\nabX".to_vec())),
             Just(B(b"binary: 0\nx".to_vec())),
             Just(B(b"binary: 3\nab\n".to_vec())),
@@ -172,6 +178,11 @@ pub fn check_with(case: &Case, all_cuts_up_to: usize) -> CaseResult {
             if *seg == Seg::Whole && fl == Flavour::Blocking {
                 continue;
             }
+            // byte-sized reads over streams beyond 30 KB only cost time (the buffer logic under
+            // test is driven by the large reads)
+            if stream.len() > 30_000 && matches!(seg, Seg::OneByte | Seg::Chunk(0..=63)) {
+                continue;
+            }
             let obs = run(fl, GREETING, &stream, seg, 0);
             execs += 1;
             if let Some(d) = diff(&reference, &obs) {
@@ -212,7 +223,7 @@ fn strategy(tier: Tier) -> BoxedStrategy<Case> {
     (
         prop_oneof![
             3 => wire::responses(4, 300, 300),
-            1 => wire::responses(6, max_payload, tier.pick(5_000, 20_000)),
+            1 => wire::responses_maybe_huge(6, max_payload, tier.pick(5_000, 20_000), 8),
         ],
         prop::option::weighted(0.5, corruption()),
         prop::collection::vec(seg_strategy(9000), 4),
